@@ -1,14 +1,174 @@
 /-
-  ICG.Driver.Srch — line protocol of domain `srch` (stub: to be filled in by the domain's owner).
+  ICG.Driver.Srch — line protocol of domain `srch` (exhaustive search, best-states, meta-game,
+  expected-greedy, evaluate and the process pool; model: ICG.Model.Search).
+
+  The bound computer and the gap function are PARAMETERS of the model.  The driver instantiates them so
+  that the model decides the state-machine part only: hidden game number j (1, 2, …) is the constant
+  game `c ↦ j`, `compute` is the identity, and `gap t` looks the pair (j, set of known coalitions of t)
+  up in a *gap table* that the harness has filled with the REAL gap of a FRESH real game holding
+  exactly that knowledge.  So an answer of the model is "the real gap of the knowledge set the model
+  says the code evaluates".
+
+  Operations (answers: one line):
+    seqs <unknown ids> <k|none>                     → `;`-separated sequences (`-` = empty sequence)
+    chunks <len> <procs>                            → chunk lengths of Pool.starmap | err:value
+    gt new <name> <n> <reps>                        → ok        (a gap table for `reps` sampled games)
+    gt put <name> <known ids> <gaps, one per game>  → ok
+    expl <name> <j> <start ids> <k|none> <procs> <poison>   → `seq=gap;…`   (get_exploitabilities_of_action_sequences)
+    stack <name> <start ids> <seq> <procs> <poison>         → gaps, one per game (get_exploitabilities_of_action_sequence)
+    best <name> <start ids> <maxsteps> <procs>      → `row|row|…#acts|acts|…`  (get_best_exploitability)
+    meta <name> <j> <m> <poison>                    → gap          (MetaGame.get_value(Coalition(m)))
+    greedy <name> <start ids> <explorable ids> <maxsteps> <procs> <orders>  → `row|…#acts`
+        orders: `;`-separated candidate orders, entry i = iteration order of the candidate set when i
+        actions have been chosen
+    evalone <limit> <reward after reset> <reward:done:chosen;…>   → `gaps#ids`      (eval_one)
+    pooldraws <ctor draws> <limit> <reps> <procs>   → `gaps#ids;…` per repetition: generator draw index
+        (row 0) and solver draw indices under the CURRENT sharing structure of evaluate()
 -/
+import ICG.Model.Search
 import ICG.Driver.Proto
 namespace ICG.Driver.Srch
-open ICG ICG.Proto
+open ICG ICG.Proto ICG.Search
 
-abbrev State := Unit
-def init : State := ()
+structure GapTab where
+  n : Nat
+  reps : Nat
+  entries : List (Nat × List Rat)      -- key = Σ 2^c over the known coalitions c
+
+abbrev State := List (String × GapTab)
+def init : State := []
+
+def get? (s : State) (name : String) : Option GapTab := (s.find? (·.1 == name)).map (·.2)
+def put (s : State) (name : String) (g : GapTab) : State := (name, g) :: s.filter (·.1 != name)
+
+def keyOf (ids : List Nat) : Nat := ids.eraseDups.foldl (fun k c => k + 2 ^ c) 0
+
+/-- the opaque gap: (hidden game number read off the table, known set) ↦ harness-supplied real gap -/
+def gapOf (g : GapTab) (t : Table Rat) : Except Err Rat :=
+  let known := knownOf t
+  let j := (known.map t.hi).foldl max 0
+  match g.entries.find? (·.1 == keyOf known) with
+  | none => .error .other
+  | some (_, vals) =>
+    if j.den = 1 ∧ 1 ≤ j.num then
+      match vals[j.num.toNat - 1]? with
+      | some x => .ok x
+      | none => .error .other
+    else .error .other
+
+def computeId (t : Table Rat) : Except Err (Table Rat) := .ok t
+def gameNo (j : Nat) : Nat → Rat := fun _ => (j : Rat)
+
+/-- the scratch game handed to the search: knows `start`, with stale values and stale bounds -/
+def scratch (n : Nat) (start : List Nat) (poison : Rat) : Table Rat :=
+  { n := n, known := fun c => start.contains c,
+    lo := fun c => if poison = 0 then 0 else poison - c,
+    hi := fun c => if poison = 0 then 0 else poison + c }
+
+def showSeq (l : List Nat) : String := showNats l
+def showSeqs (l : List (List Nat)) : String := ";".intercalate (l.map showSeq)
+def showRows (l : List (List Rat)) : String := "|".intercalate (l.map showRats)
+
+def parseK? (s : String) : Option (Option Nat) := if s = "none" then some none else s.toNat?.map some
+
+def parseOrders? (s : String) : Option (List (List Nat)) := (s.splitOn ";").mapM parseNats?
+
+def parseStep? (s : String) : Option (Rat × Bool × Nat) :=
+  match s.splitOn ":" with
+  | [r, d, c] => do
+    let r ← parseRat? r
+    let c ← c.toNat?
+    if d = "1" then some (r, true, c) else if d = "0" then some (r, false, c) else none
+  | _ => none
+
+def isPerm (a b : List Nat) : Bool := a.length == b.length && a.all b.contains && b.all a.contains
+
+/-- scripted environment for `evalone`: the env's answers are inputs -/
+def scriptEnv : EnvOps (Rat × List (Rat × Bool × Nat)) Unit Rat :=
+  { reset := fun e r => (e, r), reward := fun e => e.1,
+    step := fun e _ => match e.2 with
+      | [] => .error .other
+      | (r, d, c) :: rest => .ok ((r, rest), r, d, c) }
+
+def showEval (r : List Rat × List Nat) : String := s!"{showRats r.1}#{showNats r.2}"
 
 def handle (s : State) : List String → State × String
+  | ["seqs", unk, k] =>
+    match parseNats? unk, parseK? k with
+    | some unk, some k => (s, showSeqs (possibleSeqs unk k))
+    | _, _ => (s, "bad-op")
+  | ["chunks", len, procs] =>
+    match len.toNat?, procs.toNat? with
+    | some len, some procs =>
+      if procs = 0 then (s, toString Err.value)
+      else (s, showNats ((poolChunks (List.range len) procs).map List.length))
+    | _, _ => (s, "bad-op")
+  | ["gt", "new", name, n, reps] =>
+    match n.toNat?, reps.toNat? with
+    | some n, some reps => (put s name { n := n, reps := reps, entries := [] }, "ok")
+    | _, _ => (s, "bad-op")
+  | ["gt", "put", name, ids, vals] =>
+    match get? s name, parseNats? ids, parseRats? vals with
+    | some g, some ids, some vals => (put s name { g with entries := (keyOf ids, vals) :: g.entries }, "ok")
+    | _, _, _ => (s, "bad-op")
+  | ["expl", name, j, start, k, procs, poison] =>
+    match get? s name, j.toNat?, parseNats? start, parseK? k, procs.toNat?, parseRat? poison with
+    | some g, some j, some start, some k, some procs, some poison =>
+      match getExploitabilities computeId (gapOf g) (scratch g.n start poison) (gameNo j) k procs with
+      | .ok res => (s, ";".intercalate (res.map (fun p => s!"{showSeq p.1}={showRat p.2}")))
+      | .error e => (s, toString e)
+    | _, _, _, _, _, _ => (s, "bad-op")
+  | ["stack", name, start, seq, procs, poison] =>
+    match get? s name, parseNats? start, parseNats? seq, procs.toNat?, parseRat? poison with
+    | some g, some start, some seq, some procs, some poison =>
+      let games := (List.range g.reps).map (fun j => gameNo (j + 1))
+      match getExploitabilitiesOfSeq computeId (gapOf g) (scratch g.n start poison) games seq procs with
+      | .ok res => (s, showRats res)
+      | .error e => (s, toString e)
+    | _, _, _, _, _ => (s, "bad-op")
+  | ["best", name, start, maxSteps, procs] =>
+    match get? s name, parseNats? start, maxSteps.toNat?, procs.toNat? with
+    | some g, some start, some maxSteps, some procs =>
+      match getBestExploitability computeId (gapOf g) (scratch g.n start 0) (fun i => gameNo (i + 1))
+              maxSteps g.reps procs with
+      | .ok (_, b) => (s, s!"{showRows (b.map (·.1))}#{"|".intercalate (b.map (fun r => showNats r.2))}")
+      | .error e => (s, toString e)
+    | _, _, _, _ => (s, "bad-op")
+  | ["meta", name, j, m, poison] =>
+    match get? s name, j.toNat?, m.toNat?, parseRat? poison with
+    | some g, some j, some m, some poison =>
+      match metaValue computeId (gapOf g) (gameNo j) (scratch g.n [] poison) m with
+      | .ok (_, x) => (s, showRat x)
+      | .error e => (s, toString e)
+    | _, _, _, _ => (s, "bad-op")
+  | ["greedy", name, start, expl, maxSteps, procs, orders] =>
+    match get? s name, parseNats? start, parseNats? expl, maxSteps.toNat?, procs.toNat?, parseOrders? orders with
+    | some g, some start, some expl, some maxSteps, some procs, some orders =>
+      let games := (List.range g.reps).map (fun j => gameNo (j + 1))
+      let order : List Nat → List Nat → List Nat := fun acts _ => (orders[acts.length]?).getD []
+      match expectedGreedy computeId (gapOf g) order (scratch g.n start 0) games expl maxSteps procs with
+      | .ok (rows, acts) =>
+        -- the supplied orders must be iteration orders of the sets the model actually had
+        let okOrders := (List.range acts.length).all (fun i =>
+          isPerm ((orders[i]?).getD []) (expl.eraseDups.filter (fun c => !(acts.take i).contains c)))
+        if okOrders then (s, s!"{showRows rows}#{showNats acts}") else (s, "bad-order")
+      | .error e => (s, toString e)
+    | _, _, _, _, _, _ => (s, "bad-op")
+  | ["evalone", limit, r0, steps] =>
+    match limit.toNat?, parseRat? r0, parseList? parseStep? (steps.replace ";" ",") with
+    | some limit, some r0, some steps =>
+      match evalOne scriptEnv (fun (u : Unit) _ => .ok (u, 0)) limit ((), ()) (r0, steps) with
+      | .ok (_, r) => (s, showEval r)
+      | .error e => (s, toString e)
+    | _, _, _ => (s, "bad-op")
+  | ["pooldraws", ctor, limit, reps, procs] =>
+    match ctor.toNat?, limit.toNat?, reps.toNat?, procs.toNat? with
+    | some ctor, some limit, some reps, some procs =>
+      match poolDraws ctor limit reps procs with
+      | .ok res => (s, ";".intercalate (res.map (fun r => s!"{showList toString r.1}#{showNats r.2}")))
+      | .error e => (s, toString e)
+    | _, _, _, _ => (s, "bad-op")
+  | ["gt", "drop", name] => (s.filter (·.1 != name), "ok")
   | _ => (s, "bad-op")
 
 end ICG.Driver.Srch
